@@ -138,6 +138,62 @@ def discharge(P, s):
             cl = B._const_int(ln)
             if ci is not None and cl is not None and ci < cl:
                 return ("const", "index %d < fixed length %d" % (ci, cl))
+            # index = discriminant of a field-less enum (`TABLE[self as usize]`): all declared discriminants are below the length
+            if cl is not None:
+                x = ix
+                for _ in range(6):
+                    if x.op == "cast":
+                        x = x.a[1]
+                    elif x.op in ("ref", "deref"):
+                        x = x.a[0]
+                    elif x.op == "call" and B.cname(x) in ("From::from", "Into::into") and len(x.a[1]) == 1:
+                        ga = x.a[0][1]
+                        key = "<%s as From<%s>>::from" % ((ga[0], ga[1]) if B.cname(x) == "From::from" else (ga[1], ga[0])) if len(ga) >= 2 else None
+                        g_ = P.fns.get(key) if key else None
+                        if g_ is not None:
+                            # the crate's own `u8::from(enum)`: it must be the plain discriminant cast
+                            r_ = strip_sites(evaluate(g_).ret)
+                            while r_.op == "cast":
+                                r_ = r_.a[1]
+                            if not (r_.op == "discr" and B.peel(r_.a[0]).op == "param"):
+                                break
+                            x = T("discr", x.a[1][0])
+                        else:
+                            x = x.a[1][0]  # integer widening of std
+                    else:
+                        break
+                if x.op == "discr":
+                    adts = [a for a in P.adts.values() if a.get("kind") == "enum" and not any(v.get("fields") for v in a["variants"])]
+                    # the enum is read from the type of the switched place: every field-less crate enum whose type matches
+                    tyname = None
+                    inner = x.a[0]
+                    while inner.op in ("ref", "deref"):
+                        inner = inner.a[0]
+                    if inner.op == "param":
+                        tyname = str(f.locals[inner.a[0]].get("ty") or "").replace("&", "").strip()
+                    for a in adts:
+                        if tyname is not None and tyname.split("<")[0].split("::")[-1] == a["name"]:
+                            mx = max(v.get("discr", v["index"]) for v in a["variants"])
+                            if 0 <= mx < cl:
+                                return ("enum-index", "index is the discriminant of %s (at most %d) into a table of length %d" % (a["name"], mx, cl))
+            # index = closure parameter fed by `TABLE1.iter().position(..)` (`.map(|i| TABLE2[i])`): i < len(TABLE1) <= len(TABLE2)
+            if cl is not None and f.kind == "Closure" and ix.op == "param":
+                parent = P.fns.get(f.j.get("parent_key") or "") or next((g for g in P.fns.values() if g.kind != "Closure" and f.key.startswith(g.key + "::")), None)
+                if parent is not None:
+                    from . import flow as F_
+
+                    pev = evaluate(parent)
+                    for _, ps in sorted(pev.sites.items()):
+                        if ps.callee[0].split("::")[-1] not in ("map", "map_or", "map_or_else", "and_then") or not ps.args:
+                            continue
+                        clo = B.peel(ps.args[-1])
+                        if not (clo.op == "agg" and clo.a[0][0] == "closure" and clo.a[0][1] == f.key):
+                            continue
+                        recv = B.peel(strip_sites(ps.args[0]))
+                        if recv.op == "call" and B.cname(recv) in ("Iterator::position", "Iterator::rposition"):
+                            n1 = F_.table_len(recv.a[1][0])
+                            if n1 is not None and n1 <= cl:
+                                return ("position-index", "index comes from position() over a table of length %d <= %d" % (n1, cl))
             # index i from `for (i, _) in arr.iter_mut().enumerate()` over the same length: i < N
             if cl is not None and any(x.op == "call" and B.cname(x) == "Iterator::next" for x in subterms(ix)) and any(x.op == "call" and B.cname(x) == "Iterator::enumerate" for x in subterms(ix)):
                 src_len = _enumerate_len(ix)
@@ -673,7 +729,16 @@ NEGLIGIBLE_SUBJECTS = ("HashToPoint::hash_to_point", "HashToScalar::hash_to_scal
 
 
 def _debug_assert_ok(P, f, ev, b, site, lits):
-    """debug_assert_eq!(x.is_identity()/is_zero(), 0) where x is a hash output: negligible."""
+    """debug_assert_eq!(x.is_identity()/is_zero(), 0) where x is a hash output: negligible;
+    debug_assert_eq!(a.len(), b.len()) where the two lengths are the same linear form: cannot fail."""
+    for atom, pol in lits:
+        if atom[0] == "atom" and atom[1] == "cmp" and ((atom[2] == "Eq" and not pol) or (atom[2] == "Ne" and pol)):
+            try:
+                fa, fb = B.int_form(strip_sites(atom[3])), B.int_form(strip_sites(atom[4]))
+                if fa is not None and fb is not None and B.lin_eq(fa, fb):
+                    return ("length-eq", "the assertion compares two lengths that are the same linear form (%s): it cannot fail" % B._show_len(fa))
+            except Exception:
+                pass
     for a in site.args:
         for x in subterms(strip_sites(a)):
             if x.op == "call" and B.cname(x) in ("Group::is_identity", "Field::is_zero"):
